@@ -17,6 +17,10 @@ package c08
 //	addnt i N            obj[i].NonTerminals.Add(N)          -> ok <grammar of obj[i]>
 //	addterm i t          obj[i].Terminals.Add(t)             -> ok <grammar of obj[i]>
 //	nullable i           obj[i].NullableNonTerminals()       -> ok [A B]
+//	nullable! i          the same, and the caller then scribbles on the set it got (adds a name, removes the members)
+//	terms! i             obj[i].OrderTerminals(), then the caller overwrites the slice it got -> ok [a b]
+//	iterate i            two iter.Pull iterators over obj[i].Productions.All() advanced alternately, one abandoned half-way, and
+//	                     NonTerminals.All() nested inside itself -> ok prods=<n> pairs=<m*m>
 //	analyse i            obj[i].ComputeFIRST() and ComputeFOLLOW (only on a Verify()-valid value) -> ok nullable=[A B]
 //	prods i              -> ok <grammar of obj[i]>
 //	lang i k             -> ok <n> <sentences of obj[i] up to length k>
@@ -36,6 +40,7 @@ package c08
 
 import (
 	"fmt"
+	"iter"
 	"sort"
 	"strconv"
 	"strings"
@@ -59,7 +64,7 @@ type kprod struct {
 	body []ksym
 }
 
-// kg is a grammar value with explicit symbol kinds (bare names).
+// kg is a grammar value with explicit symbol kinds (canonical bare words: EncName of the names).
 type kg struct {
 	terms, nonterms []string
 	prods           []kprod
@@ -94,23 +99,23 @@ func has(xs []string, x string) bool {
 func readCFG(c *grammar.CFG) kg {
 	var v kg
 	for t := range c.Terminals.All() {
-		v.terms = append(v.terms, string(t))
+		v.terms = append(v.terms, WordOf(string(t)))
 	}
 	for n := range c.NonTerminals.All() {
-		v.nonterms = append(v.nonterms, string(n))
+		v.nonterms = append(v.nonterms, WordOf(string(n)))
 	}
 	for p := range c.Productions.All() {
-		q := kprod{head: string(p.Head)}
+		q := kprod{head: WordOf(string(p.Head))}
 		for _, s := range p.Body {
 			_, isT := s.(grammar.Terminal)
-			q.body = append(q.body, ksym{s.Name(), isT})
+			q.body = append(q.body, ksym{WordOf(s.Name()), isT})
 		}
 		v.prods = append(v.prods, q)
 	}
 	sort.Strings(v.terms)
 	sort.Strings(v.nonterms)
 	sort.Slice(v.prods, func(i, j int) bool { return v.prods[i].key() < v.prods[j].key() })
-	v.start = string(c.Start)
+	v.start = WordOf(string(c.Start))
 	return v
 }
 
@@ -232,17 +237,17 @@ func parseProd(v kg, f []string) (kprod, bool) {
 	if len(f) < 2 || f[1] != ":" {
 		return kprod{}, false
 	}
-	p := kprod{head: f[0]}
+	p := kprod{head: canonBare(f[0])}
 	for _, w := range f[2:] {
 		switch {
 		case strings.HasPrefix(w, Q):
-			p.body = append(p.body, ksym{w[len(Q):], true})
+			p.body = append(p.body, ksym{canonBare(w[len(Q):]), true})
 		case strings.HasPrefix(w, "^"):
-			p.body = append(p.body, ksym{w[1:], false})
-		case has(v.nonterms, w):
-			p.body = append(p.body, ksym{w, false})
+			p.body = append(p.body, ksym{canonBare(w[1:]), false})
+		case has(v.nonterms, canonBare(w)):
+			p.body = append(p.body, ksym{canonBare(w), false})
 		default:
-			p.body = append(p.body, ksym{w, true})
+			p.body = append(p.body, ksym{canonBare(w), true})
 		}
 	}
 	return p, true
@@ -252,12 +257,12 @@ func (p kprod) lib() *grammar.Production {
 	body := grammar.String[grammar.Symbol]{}
 	for _, s := range p.body {
 		if s.term {
-			body = append(body, grammar.Terminal(s.name))
+			body = append(body, grammar.Terminal(NameOf(s.name)))
 		} else {
-			body = append(body, grammar.NonTerminal(s.name))
+			body = append(body, grammar.NonTerminal(NameOf(s.name)))
 		}
 	}
-	return &grammar.Production{Head: grammar.NonTerminal(p.head), Body: body}
+	return &grammar.Production{Head: grammar.NonTerminal(NameOf(p.head)), Body: body}
 }
 
 func showNames(ns []string) string {
@@ -409,30 +414,110 @@ func (h *Hist) Step(op string) (r StepResult) {
 			return undefined()
 		}
 		var kind string
+		w := canonBare(Bare(f[2]))
 		if f[0] == "addnt" {
-			kind = hx.Try(func() { o.c.NonTerminals.Add(grammar.NonTerminal(f[2])) })
-			if !has(o.v.nonterms, f[2]) {
+			kind = hx.Try(func() { o.c.NonTerminals.Add(grammar.NonTerminal(NameOf(w))) })
+			if !has(o.v.nonterms, w) {
 				o.v = o.v.clone()
-				o.v.nonterms = append(o.v.nonterms, f[2])
+				o.v.nonterms = append(o.v.nonterms, w)
 			}
 		} else {
-			name := Bare(f[2])
-			kind = hx.Try(func() { o.c.Terminals.Add(grammar.Terminal(name)) })
-			if !has(o.v.terms, name) {
+			kind = hx.Try(func() { o.c.Terminals.Add(grammar.Terminal(NameOf(w))) })
+			if !has(o.v.terms, w) {
 				o.v = o.v.clone()
-				o.v.terms = append(o.v.terms, name)
+				o.v.terms = append(o.v.terms, w)
 			}
 		}
 		h.edit(op, i, kind, &r, complain)
 		return
-	case f[0] == "nullable" && len(f) == 2:
+	case f[0] == "terms!" && len(f) == 2:
+		if o == nil {
+			return undefined()
+		}
+		var ws []string
+		if kind := hx.Try(func() {
+			ts := o.c.OrderTerminals()
+			for _, t := range ts {
+				ws = append(ws, tname(o.v.GX(), t))
+			}
+			for k := range ts { // the slice is the caller's now
+				ts[k] = "\x00scribble"
+			}
+		}); kind != "" {
+			r.Out, r.Stop = "panic", true
+			complain("OrderTerminals on object %d panicked (%s)", i, kind)
+			return
+		}
+		r.Out = "ok [" + strings.Join(ws, " ") + "]"
+		names := append([]string{}, o.v.terms...)
+		sort.Slice(names, func(a, b int) bool { return NameOf(names[a]) < NameOf(names[b]) })
+		for k, w := range names {
+			if has(o.v.nonterms, w) {
+				names[k] = Q + w
+			}
+			if NameOf(w) == endm {
+				names[k] = "$"
+			}
+		}
+		if want := "ok [" + strings.Join(names, " ") + "]"; want != r.Out {
+			complain("OrderTerminals on object %d answered %s, the terminals in name order are %s", i, r.Out[3:], want[3:])
+		}
+		h.tags["hist:terms!"] = true
+		h.frame(op, -1, i, complain)
+		return
+	case f[0] == "iterate" && len(f) == 2:
+		if o == nil {
+			return undefined()
+		}
+		var np, pairs int
+		if kind := hx.Try(func() {
+			next1, stop1 := iter.Pull(o.c.Productions.All())
+			next2, stop2 := iter.Pull(o.c.Productions.All())
+			defer stop2()
+			half := len(o.v.prods) / 2
+			for k := 0; ; k++ {
+				if k < half {
+					next1()
+				} else if k == half {
+					stop1() // abandoned half-way
+				}
+				if _, ok := next2(); !ok {
+					break
+				}
+				np++
+			}
+			for range o.c.NonTerminals.All() {
+				for range o.c.NonTerminals.All() {
+					pairs++
+				}
+			}
+		}); kind != "" {
+			r.Out, r.Stop = "panic", true
+			complain("iterating object %d panicked (%s)", i, kind)
+			return
+		}
+		r.Out = fmt.Sprintf("ok prods=%d pairs=%d", np, pairs)
+		if want := fmt.Sprintf("ok prods=%d pairs=%d", len(o.v.prods), len(o.v.nonterms)*len(o.v.nonterms)); want != r.Out {
+			complain("iterators over object %d yielded %s, the value on record has %s", i, r.Out[3:], want[3:])
+		}
+		h.tags["hist:iterate"] = true
+		h.frame(op, -1, i, complain)
+		return
+	case (f[0] == "nullable" || f[0] == "nullable!") && len(f) == 2:
 		if o == nil {
 			return undefined()
 		}
 		var names []string
 		kind := hx.Try(func() {
-			for n := range o.c.NullableNonTerminals().All() {
-				names = append(names, string(n))
+			set := o.c.NullableNonTerminals()
+			for n := range set.All() {
+				names = append(names, WordOf(string(n)))
+			}
+			if f[0] == "nullable!" { // the set is the caller's now
+				for _, n := range names {
+					set.Remove(grammar.NonTerminal(NameOf(n)))
+				}
+				set.Add(grammar.NonTerminal("\x00scribble"), grammar.NonTerminal(NameOf(o.v.start)))
 			}
 		})
 		if kind != "" {
@@ -475,7 +560,7 @@ func (h *Hist) Step(op string) (r StepResult) {
 			_ = o.c.ComputeFOLLOW(first)
 			for n := range o.c.NonTerminals.All() {
 				if first(grammar.String[grammar.Symbol]{n}).IncludesEmpty {
-					names = append(names, string(n))
+					names = append(names, WordOf(string(n)))
 				}
 			}
 		})
@@ -643,7 +728,11 @@ func newHistGen(r *hx.Rand, g gx.G) *histGen {
 
 // emit runs op; an apply that ends in AddNewNonTerminal's documented panic is left out (a known finding of the
 // single-transformation components), any other op is kept.
-func (x *histGen) emit(op string) bool {
+func (x *histGen) emit(format string, a ...any) bool {
+	op := format
+	if len(a) > 0 {
+		op = fmt.Sprintf(format, a...)
+	}
 	if x.end {
 		return false
 	}
@@ -707,8 +796,10 @@ func (x *histGen) randomOp() {
 			return
 		}
 		x.emit(fmt.Sprintf("apply %d %s %d", i, x.pickT(v), x.freeSlot()))
-	case c < 50:
+	case c < 47:
 		x.emit(fmt.Sprintf("nullable %d", i))
+	case c < 50:
+		x.emit(hx.Pick(r, []string{"nullable! %d", "terms! %d", "iterate %d"}), i)
 	case c < 54:
 		x.emit(fmt.Sprintf("analyse %d", i))
 	case c < 70:
@@ -756,7 +847,11 @@ func (x *histGen) randomOp() {
 			x.emit(fmt.Sprintf("lang %d %d", i, r.Range(2, 3)))
 		}
 	default:
-		x.emit(fmt.Sprintf("eq %d %d", i, hx.Pick(r, live)))
+		if r.Intn(3) == 0 {
+			x.emit(fmt.Sprintf("eq %d %d", i, i)) // the same object twice
+		} else {
+			x.emit(fmt.Sprintf("eq %d %d", i, hx.Pick(r, live)))
+		}
 	}
 }
 
@@ -843,8 +938,10 @@ func GenHistory(r *hx.Rand, g gx.G, kind, n int) hx.Case {
 		mix = "nullable-then-change"
 		// something that computes the nullable set of object 0
 		switch r.Intn(6) {
-		case 0, 1:
+		case 0:
 			x.emit("nullable 0")
+		case 1:
+			x.emit("nullable! 0")
 		case 2:
 			x.emit("analyse 0")
 		default:
